@@ -14,14 +14,16 @@ BOUNDS = {
     'quick': 'program SB(a)[BF(<name>)[]; SB(b, raises, caught)[]]; BF(<name2>, fails, caught): return value of one function a '
              'JSON template (depth <= 2, width <= 2, all leaf kinds, symbolic leaves), versions map with a template value; '
              'output names from a legal-name list (spaces, non-ASCII, leading dot, quotes, backslash, newline); build, unchanged '
-             'build (served from cache), clean; plus field-wise comparison of the Cache object written and the one read back',
+             'build (served from cache), clean; plus field-wise comparison of the Cache object written and the one read back; '
+             'plus a failing write of the new cache (OSError at the open, OSError at the data write, serialisation error after the '
+             'open) with and without a previous cache: previous records back field by field and used by the next build / no file left',
     'thorough': 'width 3 / two template-valued functions',
 }
 ASSUMPTIONS = [
     'in the symbolic run gzip+json are the document-store stub (JSON round trip = identity on sanitised values); the real '
     'gzip/json are exercised by the real-OS validations and replays of every run',
 ]
-WITNESSES = {'quick': ['served-from-cache', 'failure-marker-survived', 'created-dirs-survived', 'cache-object-compared'],
+WITNESSES = {'quick': ['served-from-cache', 'failure-marker-survived', 'created-dirs-survived', 'cache-object-compared', 'cache-write-failed'],
              'thorough': ['served-from-cache']}
 
 NAMES = ['plain.txt', 'with space', 'ünï cödé', '.hidden', '名前', 'quo"te\'', 'back\\slash', 'new\nline', ' lead',
@@ -36,6 +38,8 @@ def families(tier):
         {'name': 'e2e', 'params': {'depth': 1, 'width': 2, 'who': 'bf'}, 'weight': 2},
         {'name': 'e2e', 'params': {'depth': 1, 'width': 1, 'who': 'version'}, 'weight': 1},
         {'name': 'names', 'params': {}, 'weight': 1, 'validate': 24},
+        # the write of the new cache fails (open, data, or a value json refuses): the previous content is back / no file left
+        {'name': 'writefail', 'params': {'depth': 1, 'width': 1, 'who': 'a'}, 'weight': 1, 'validate': 8},
     ]
     if tier == 'quick':
         return q
@@ -69,6 +73,67 @@ def op_same(a, b):
         if len(a.suboperations) == len(b.suboperations):
             conds += [op_same(x, y) for x, y in zip(a.suboperations, b.suboperations)]
     return L.and_(*conds)
+
+
+def write_fails(eng, w, d, prog, versions, beh, target_sid, written, cache_mod):
+    """'...if writing it fails its previous content is back (or, if there was none, no cache file is left)'"""
+    import errno
+    prev = eng.choose('prev', 2) == 1
+    how = ['gzip-w', 'gzip-data', 'unserialisable'][eng.choose('how', 3)]
+    sig = ('writefail', 'prev' if prev else 'first', how)
+    eng.path_info.update({'previous_cache': prev, 'failure': how})
+    impl1 = None
+    if prev:
+        impl1, ref1 = d.build(prog, versions=versions, behaviour=beh)
+        d.guard_same('first')
+        if impl1[0] != 'ok' or not written:
+            return
+        before = w.fs.snapshot(w.root).get(w.cache)
+    c1 = written[-1] if written else None
+    beh2 = dict(beh)
+    beh2[target_sid] = ['changed', eng.fresh_int('v2')]
+    tree_before = w.snap(w.fs)
+
+    def hook(op, args, mutating):
+        if op == how and args and args[0] == w.cache:
+            raise OSError(errno.ENOSPC, 'No space left on device (injected)', w.cache)
+    orig_write = cache_mod.Cache.write
+    if how == 'unserialisable':
+        # the document cannot be serialised (e.g. an integer json refuses to print): the failure strikes after the file was opened
+        def failing_write(self, filename):
+            import gzip as _g
+            with w.env.gzip.open(filename, 'wt') as f:
+                raise ValueError('Exceeds the limit for integer string conversion (injected)')
+        cache_mod.Cache.write = failing_write
+    else:
+        w.env.hooks.append(hook)
+    try:
+        impl2, _ = d.build_impl_only(prog, versions=versions, behaviour=beh2)
+    finally:
+        cache_mod.Cache.write = orig_write
+        if hook in w.env.hooks:
+            w.env.hooks.remove(hook)
+    eng.check('C16.failed-write-surfaces', impl2[0] == 'exc', sig, info={'impl': repr(impl2[1])[:200]})
+    eng.witness('cache-write-failed')
+    if not prev:
+        eng.check('C16.no-cache-file-left', w.fs.kind(w.cache) == ABSENT, sig, info={'kind': w.fs.kind(w.cache)})
+    else:
+        eng.check('C16.previous-cache-back', w.fs.kind(w.cache) == FILE, sig, info={'kind': w.fs.kind(w.cache)})
+        if w.fs.kind(w.cache) != FILE:
+            return
+        c2 = cache_mod.Cache.read_immutable(w.cache)
+        conds = [sorted(c1._files.keys()) == sorted(c2._files.keys()), len(c1._subbuilds) == len(c2._subbuilds),
+                 L.eq(c1._func_versions, c2._func_versions, exact_types=True), sorted(c1.created_dirs()) == sorted(c2.created_dirs())]
+        if conds[0]:
+            conds += [op_same(op, c2._files[fn]) for fn, op in c1._files.items()]
+        eng.check('C16.previous-cache-content', L.and_(*conds), sig)
+        # and it is what the next build uses: the original program is served from it
+        impl3, ref3 = d.build(prog, versions=versions, behaviour=beh)
+        eng.check('C16.previous-cache-used', impl3[0] == 'ok' and set(d.impl_calls) <= {'r.1'}, sig,
+                  info={'calls': d.impl_calls, 'impl': repr(impl3[1])[:200]})
+        if impl3[0] == 'ok':
+            eng.check('C16.served-value-equals-original', L.eq(impl1[1], impl3[1], exact_types=True), sig)
+    eng.sample({'family': 'writefail', 'previous_cache': prev, 'failure': how})
 
 
 def harness(eng, fam, P):
@@ -113,6 +178,8 @@ def harness(eng, fam, P):
         d = Driver(eng, w)
         extra = {'repr': eng.repr_fn()} if eng.symbolic else None
         w.bind(extra)
+        if fam == 'writefail':
+            return write_fails(eng, w, d, prog, versions, beh, target_sid, written, cache_mod)
         impl1, ref1 = d.build(prog, versions=versions, behaviour=beh)
         # whatever the build recorded (any legal name, any JSON value) must be writable: the commit may not fail where
         # the from-scratch reference succeeds
